@@ -22,7 +22,7 @@ def has_negative_ttl(ops):
             continue
         for rule in f[2:]:
             r = rule.split("|")
-            if len(r) == 9 and (r[3].startswith("-") and r[3] != "-" or r[4].startswith("-") and r[4] != "-"):
+            if len(r) == 10 and (r[3].startswith("-") and r[3] != "-" or r[4].startswith("-") and r[4] != "-"):
                 return True
     return False
 
@@ -76,7 +76,7 @@ class ACLStream(Stream):
         for o, a in zip(ops, impls):
             f = o.split("\t")
             if f[0] == "attach":
-                if f[2] == "fresh" and a == "ok":
+                if f[2] == "fresh" and a == "ok" and f[4] == "-":   # expiration overrides are keyed by position
                     slot_key[f[1]] = ",".join(sorted(f[3].split(",")))
                 else:
                     slot_key.pop(f[1], None)
